@@ -118,6 +118,9 @@ Proof.
     [|apply nth_error_None in Hn; lia].
   pose proof (proj1 (Forall_forall _ _) E w (nth_error_In _ _ Hn)) as [Hcode Hw].
   destruct (w_state w) eqn:Hst; [|exact I|].
+  all: cbv zeta; set (off' := off mod s_m s);
+       set (pcv := (add64 off' (z2u64 (w_start w))) mod s_m s);
+       assert (Hpcv : pcv < s_m s) by (apply N.mod_lt; lia).
   all: unfold Inv; cbn [s_m s_procs s_cycles s_mem s_ws s_living s_cycle set_w with_mem with_ws with_living];
        split; [assumption|]; split; [assumption|]; split; [assumption|];
        split; [apply load_code_cwf; [lia|assumption|assumption]|];
@@ -125,16 +128,16 @@ Proof.
   all: try (apply list_set_Forall; [assumption|]; split; [assumption|]; cbn [w_state w_pq];
             eexists; split; [reflexivity|];
             pose proof (rq_new_wf (s_procs s) B) as Hnw;
-            destruct (rq_push_wf (rq_new (s_procs s)) ((add64 off (z2u64 (w_start w))) mod s_m s) Hnw) as [Hpw Hps];
+            destruct (rq_push_wf (rq_new (s_procs s)) pcv Hnw) as [Hpw Hps];
             split; [assumption|]; split; [rewrite Hps; reflexivity|];
-            pose proof (rq_push_values (rq_new (s_procs s)) ((add64 off (z2u64 (w_start w))) mod s_m s) Hnw) as Hv;
+            pose proof (rq_push_values (rq_new (s_procs s)) pcv Hnw) as Hv;
             rewrite rq_new_values in Hv; cbn [length] in Hv;
             assert (Hlt : (N.of_nat 0 <? q_size (rq_new (s_procs s))) = true)
               by (apply N.ltb_lt; cbn; lia);
             rewrite Hlt in Hv; cbn [app] in Hv;
-            split; [pose proof (rq_values_length (rq_push (rq_new (s_procs s)) ((add64 off (z2u64 (w_start w))) mod s_m s))) as Hl;
+            split; [pose proof (rq_values_length (rq_push (rq_new (s_procs s)) pcv)) as Hl;
                     rewrite Hv in Hl; cbn [length] in Hl; lia
-                   | rewrite Hv; constructor; [apply N.mod_lt; lia|constructor]]).
+                   | rewrite Hv; constructor; [assumption|constructor]]).
   all: rewrite (alive_count_set _ _ w _ Hn); unfold alive; rewrite Hst; cbn [w_state]; lia.
 Qed.
 
